@@ -563,5 +563,5 @@ func init() {
 }
 
 func init() {
-	ctl("update3 trusts the monitor id it is sent", "P-NIL-LOOKUP", "update3|deref map element", "client", "ovsdbClient", "update3", kStmt, "if mon, ok := db.monitors[cookie.ID]; ok", 0, to("mon := db.monitors[cookie.ID]\nmon.LastTransactionID = lastTransactionID"))
+	ctl("update2 trusts the database name it is sent", "P-NIL-LOOKUP", "update2|deref map element", "client", "ovsdbClient", "update2", kExpr, "db == nil", 0, to("false"))
 }
